@@ -8,6 +8,7 @@ import (
 	"encoding/hex"
 	"encoding/json"
 	"fmt"
+	"strings"
 
 	"github.com/scigolib/hdf5/internal/core"
 )
@@ -31,10 +32,11 @@ type c11Case struct {
 }
 
 type c11Sb struct {
-	V  uint8 `json:"v"`
-	O  uint8 `json:"o"`
-	L  uint8 `json:"l"`
-	BE bool  `json:"be"`
+	V    uint8  `json:"v"`
+	O    uint8  `json:"o"`
+	L    uint8  `json:"l"`
+	BE   bool   `json:"be"`
+	Addr uint64 `json:"addr"` // address of the structure inside the file image (object header)
 }
 
 func (s *c11Sb) sb() *core.Superblock {
@@ -45,7 +47,8 @@ func (s *c11Sb) sb() *core.Superblock {
 	if s.BE {
 		e = binary.BigEndian
 	}
-	return &core.Superblock{Version: s.V, OffsetSize: s.O, LengthSize: s.L, Endianness: e}
+	// BaseAddress is not used by any codec under test: it carries the structure address to the decoder
+	return &core.Superblock{Version: s.V, OffsetSize: s.O, LengthSize: s.L, Endianness: e, BaseAddress: s.Addr}
 }
 
 type c11Dec struct {
@@ -289,6 +292,67 @@ func init() {
 			}
 			return vl{sb.Version, sb.OffsetSize, sb.LengthSize, vBool(sb.Endianness == binary.BigEndian), sb.BaseAddress,
 				sb.RootGroup, sb.SuperExtension, sb.DriverInfo, sb.RootBTreeAddr, sb.RootHeapAddr}, nil
+		},
+	}
+
+	// ---------------------------------------------------------------- object header v1 / v2
+	// "encoded bytes" = file image: zeros up to addr, the header written by WriteTo at addr, then "suf"
+	c11Codecs["ohdr"] = c11Codec{
+		enc: func(val json.RawMessage, sb *core.Superblock) ([]byte, error) {
+			var v struct {
+				Version  uint8  `json:"version"`
+				Flags    uint8  `json:"flags"`
+				RefCount uint32 `json:"refcount"`
+				Msgs     []struct {
+					Type uint16 `json:"type"`
+					Data string `json:"data"`
+				} `json:"msgs"`
+				Suf string `json:"suf"`
+			}
+			if err := json.Unmarshal(val, &v); err != nil {
+				return nil, err
+			}
+			w := &core.ObjectHeaderWriter{Version: v.Version, Flags: v.Flags, RefCount: v.RefCount}
+			for _, m := range v.Msgs {
+				d, err := hex.DecodeString(m.Data)
+				if err != nil {
+					return nil, err
+				}
+				w.Messages = append(w.Messages, core.MessageWriter{Type: core.MessageType(m.Type), Data: d})
+			}
+			suf, err := hex.DecodeString(v.Suf)
+			if err != nil {
+				return nil, err
+			}
+			mem := &c11Mem{b: make([]byte, sb.BaseAddress)}
+			n, err := w.WriteTo(mem, sb.BaseAddress)
+			if err != nil {
+				return nil, err
+			}
+			if n != w.Size() || uint64(len(mem.b)) != sb.BaseAddress+n {
+				return nil, fmt.Errorf("WriteTo returned %d, Size() = %d, image length %d", n, w.Size(), len(mem.b))
+			}
+			return append(mem.b, suf...), nil
+		},
+		dec: func(data []byte, sb *core.Superblock) (interface{}, error) {
+			addr := sb.BaseAddress
+			sb2 := *sb
+			sb2.BaseAddress = 0
+			oh, err := core.ReadObjectHeader(bytes.NewReader(data), addr, &sb2)
+			if err != nil {
+				if strings.Contains(err.Error(), "continuation block") {
+					return vl{"636f6e74"}, nil // "cont": continuation blocks are outside the model
+				}
+				return nil, err
+			}
+			msgs := make(vl, len(oh.Messages))
+			for i, m := range oh.Messages {
+				if m.Type == core.MsgContinuation && len(m.Data) > 0 {
+					return vl{"636f6e74"}, nil
+				}
+				msgs[i] = vl{uint16(m.Type), m.Offset, vBytes(m.Data)}
+			}
+			return vl{oh.Version, oh.Flags, oh.ReferenceCount, vBytes([]byte(oh.Name)), msgs}, nil
 		},
 	}
 }
